@@ -18,7 +18,7 @@ ORACLE = {
     "compile_set": {"FALSE": 1},
     "compile_quasiquote": {"FALSE": 1},
     "compile_runtime_procedure_application": {"FALSE": 2},
-    "compile_runnable": {"TRUE": 1},
+    "compile_runnable": {"TRUE": 1, "LAST": 1},
     "eval": {"TRUE": 1},
 }
 WHY = {
@@ -28,7 +28,7 @@ WHY = {
     "compile_set": "the value expression of an assignment is not a tail position",
     "compile_quasiquote": "an unquoted expression is an operand of list construction",
     "compile_runtime_procedure_application": "operands and operator are evaluated before the call",
-    "compile_runnable": "a top-level expression is the body of the entry procedure",
+    "compile_runnable": "a top-level expression is the body of the entry procedure; of the spliced forms of an outermost begin only the last is in tail position",
     "eval": "the evaluated expression is the body of a fresh top-level procedure",
     "compile": "transformation wrapper: inherits", "compile_expression": "dispatcher: inherits",
     "compile_procedure_application": "special-form dispatcher: inherits",
